@@ -121,6 +121,11 @@ func c01(e *Env) {
 			return
 		}
 		cs := e.caseOpts(t, n, 3, false, e.Thorough)
+		if !e.Thorough && hasList(e, t, map[string]bool{}) {
+			// exactly the largest count / length the prefixes can carry (the generator clamps to each field's own
+			// prefix): "representable in their prefix" includes the maximum itself
+			cs = append(cs, &gen.Opts{NoNilBody: true, Lens: []int{65535}, StrLens: []int{0, 1, 3}}, &gen.Opts{NoNilBody: true, Lens: []int{1, 2}, StrLens: []int{65535}}, &gen.Opts{NoNilBody: true, Lens: []int{255}, StrLens: []int{255}})
+		}
 		local := map[uint64]struct{}{}
 		lf := map[string]int{}
 		for ci, o := range cs {
